@@ -2,7 +2,8 @@
 From Coq Require Import ZArith QArith Qabs List Bool.
 From QV Require Import Model.Num Model.Rounding Model.Quantity Model.Dim Model.Registry
      Proofs.QuantityProofs Proofs.DimProofs Proofs.RegistryProofs Proofs.DirectoryProofs
-     Proofs.C02Proofs Proofs.C15Proofs.
+     Proofs.C02Proofs Proofs.C15Proofs
+     Model.Effects Proofs.EffectsProofs Gen.EffectsImpl.
 
 (* The model executes a type declaration in the order of the code's side
    effects: checks of __new__, registration of the reference unit (symbol map,
@@ -40,6 +41,32 @@ Proof.
   subst. auto.
 Qed.
 Print Assumptions C16_reachable_rejection_noop.
+
+(* the same as a statement about the CODE's control flow, for all inputs: the
+   bodies of the declaring methods (QuantityMeta._make_unit, _make_ref_unit,
+   new_unit, derive_unit_from, MoneyMeta.new_unit, register_currency,
+   MoneyConverter.update) are re-translated on every run into the effect
+   language of Model/Effects.v (Gen/EffectsImpl.v; Guard = may raise, Write = a
+   write to a directory, registry or converter table).  Each passes the check
+   [atomic]; by EffectsProofs.atomic_sound (proved once, for every program of the
+   language) an execution that ends in an exception has written nothing *)
+Theorem C16_declaring_methods_raise_before_they_write :
+  forall p, In p declaring_methods -> forall w', ex_l p false Exc w' -> w' = false.
+Proof.
+  intros p H. apply atomic_sound.
+  assert (A : forallb atomic declaring_methods = true) by (vm_compute; reflexivity).
+  rewrite forallb_forall in A. apply A, H.
+Qed.
+Print Assumptions C16_declaring_methods_raise_before_they_write.
+
+(* the check is not vacuous: it rejects the shapes of the seeded changes (a write
+   before the duplicate-symbol check; the kind of validity fixed before the rates
+   are built) *)
+Example C16_atomic_rejects :
+  atomic [Guard; Write; If [Guard; Raise] [Guard; Write]; Write; Return] = false /\
+  atomic [Guard; If [Write] [If [Raise] []]; Guard; Write] = false /\
+  atomic make_unit_prog = true /\ atomic converter_update_prog = true.
+Proof. vm_compute. repeat split. Qed.
 
 (* non-vacuity: a second type for Length**2 with its own reference symbol is
    rejected and the symbol stays free for a later valid declaration *)
